@@ -21,7 +21,7 @@ AtomPool ==
 SmallAtoms == { VNull, VUndef, VNum("1"), VStr("a"), VBool(TRUE), VObj(<<>>), VArr(<<>>) }
 
 PrimCand(p) ==
-  CASE p = "string"  -> {VStr("a"), VStr(""), VNum("1"), VNull}
+  CASE p = "string"  -> {VStr("a"), VStr("zz"), VStr(""), VNum("1"), VNull}
     [] p = "number"  -> {VNum("1"), VNum("0.5"), VNum("NaN"), VStr("1"), VNull}
     [] p = "numberkey" -> {VNum("1"), VStr("1"), VNull}
     [] p = "boolean" -> {VBool(TRUE), VBool(FALSE), VNum("0"), VStr("true"), VUndef}
@@ -76,7 +76,8 @@ ObjCand(T, env, f) ==
       base == IF \A i \in 1..n : mem(i) # {}
               THEN LET b1 == [i \in 1..n |-> P(T.ps[i].key, CHOOSE m \in mem(i) : TRUE)] IN {b1}
               ELSE {}
-      ixMem == IF T.ix = <<>> THEN {} ELSE Take(Members(T.ix[1].vt, env, f), 1)
+      \* several members of the index value type (one member cannot tell `string` from a set of literals that contains it)
+      ixMem == IF T.ix = <<>> THEN {} ELSE Take({c \in Cand(T.ix[1].vt, env, f) : M3(c, T.ix[1].vt, env, {}, TRUE) = "T"}, 3)
       ixBad == IF T.ix = <<>> THEN {} ELSE Take({c \in Cand(T.ix[1].vt, env, f) : M3(c, T.ix[1].vt, env, {}, FALSE) = "F"}, 2)
       ixKeys == IF T.ix = <<>> THEN {} ELSE
                  Take({c.s : c \in {c \in Cand(T.ix[1].kt, env, f) : c.k = "str" /\ c.s \notin {T.ps[i].key : i \in 1..n}}}, 3)
